@@ -174,7 +174,8 @@ func (vc *VC) Query(o *Obligation, wantModel bool) string {
 	pre := vc.enc.pre
 	keys := vc.enc.preKeys
 	inc := make([]bool, len(pre))
-	needed := rest
+	litDecls := vc.enc.strLitDecls(rest + strings.Join(pre, "\n"))
+	needed := rest + strings.Join(litDecls, "\n")
 	for changed := true; changed; {
 		changed = false
 		for i := len(pre) - 1; i >= 0; i-- {
@@ -187,6 +188,12 @@ func (vc *VC) Query(o *Obligation, wantModel bool) string {
 			}
 			if strings.HasSuffix(keys[i], ".ax") && sym == "" {
 				sym = strings.TrimSuffix(keys[i], ".ax")
+			}
+			if strings.HasPrefix(pre[i], "(declare-datatypes") && sym != "" && strings.Contains(needed, sym) {
+				inc[i] = true
+				needed += pre[i] + "\n"
+				changed = true
+				continue
 			}
 			if alwaysPre[keys[i]] || (sym != "" && mentions(needed, sym)) || (sym == "" && !strings.HasSuffix(keys[i], ".ax")) {
 				inc[i] = true
@@ -201,7 +208,7 @@ func (vc *VC) Query(o *Obligation, wantModel bool) string {
 			sb.WriteString("\n")
 		}
 	}
-	for _, l := range vc.enc.strLitDecls(needed) {
+	for _, l := range litDecls {
 		sb.WriteString(l)
 		sb.WriteString("\n")
 	}
